@@ -8,6 +8,7 @@ import (
 	"bytes"
 	"context"
 	"crypto/tls"
+	"encoding/json"
 	"errors"
 	"fmt"
 	"io"
@@ -17,9 +18,12 @@ import (
 	"net/http/httptest"
 	"net/url"
 	"os"
+	"os/exec"
+	"path/filepath"
 	"reflect"
 	"strings"
 	"sync"
+	"sync/atomic"
 	"time"
 	"unsafe"
 
@@ -284,7 +288,8 @@ func main() {
 
 	// 4. the limit in action: slow upstream behind the real HTTPProxy
 	type sc struct{ limit, delay int64 }
-	scen := []sc{{150, 0}, {150, 40}, {150, 400}, {150, 700}, {300, 100}, {300, 900}, {0, 250}, {80, 500}}
+	// the last two have a limit long enough for "within that time" to tell one attempt from two
+	scen := []sc{{150, 0}, {150, 40}, {150, 400}, {150, 700}, {300, 100}, {300, 900}, {0, 250}, {80, 500}, {1500, 4000}, {1200, 100}}
 	if run.Thorough() {
 		for i := 0; i < 24; i++ {
 			scen = append(scen, sc{int64(50 + r.Intn(400)), int64(r.Intn(1200))})
@@ -296,6 +301,7 @@ func main() {
 		ust     int
 		status  int
 		elapsed int64
+		hits    int64
 	}
 	results := make([]res, len(scen))
 	var wg sync.WaitGroup
@@ -315,7 +321,9 @@ func main() {
 		wg.Add(1)
 		go func(i int, s sc, ust int, tr *http.Transport) {
 			defer wg.Done()
+			var hits int64
 			up := httptest.NewServer(http.HandlerFunc(func(w http.ResponseWriter, rq *http.Request) {
+				atomic.AddInt64(&hits, 1)
 				time.Sleep(time.Duration(s.delay) * time.Millisecond)
 				w.WriteHeader(ust)
 			}))
@@ -327,7 +335,9 @@ func main() {
 			rec := httptest.NewRecorder()
 			t0 := time.Now()
 			p.ServeHTTP(rec, httptest.NewRequest("GET", "http://front/", nil))
-			results[i] = res{s, ust, rec.Code, time.Since(t0).Milliseconds()}
+			el := time.Since(t0).Milliseconds()
+			time.Sleep(30 * time.Millisecond) // a request sent at the very end is still counted
+			results[i] = res{s, ust, rec.Code, el, atomic.LoadInt64(&hits)}
 			tr.CloseIdleConnections()
 		}(i, s, ust, tr)
 	}
@@ -338,9 +348,10 @@ func main() {
 		if x.status == -1 {
 			continue
 		}
-		run.Add("slow-upstream", vh.App("CServe", vh.Z(x.s.limit), vh.Z(x.s.delay), vh.Z(int64(x.ust)), vh.Z(int64(x.status)), vh.Z(x.elapsed), vh.Z(3000)),
-			map[string]interface{}{"limit_ms": x.s.limit, "delay_ms": x.s.delay, "upstream_status": x.ust, "client_status": x.status, "elapsed_ms": x.elapsed})
+		run.Add("slow-upstream", vh.App("CServe", vh.Z(x.s.limit), vh.Z(x.s.delay), vh.Z(int64(x.ust)), vh.Z(int64(x.status)), vh.Z(x.elapsed), vh.Z(3000), vh.Z(x.hits)),
+			map[string]interface{}{"limit_ms": x.s.limit, "delay_ms": x.s.delay, "upstream_status": x.ust, "client_status": x.status, "elapsed_ms": x.elapsed, "upstream_hits": x.hits})
 	}
+	realMain(run, r)
 	// 5. the dial timeout in action for each kind of transport NewTransport builds: the default one, the
 	// skip-verify one (main.go InsecureTransport) and a per-route host-override transport.  1 ns cannot
 	// be met even on loopback; 5 s always is.
@@ -381,6 +392,102 @@ func main() {
 	}
 	transport.SetConfig(limits{}.cfg())
 	run.Finish(preamble, run.Scale(40, 400))
+}
+
+// realMain runs fabio's real main() (driver /repo/verif_c19_test.go, one `go test` process per
+// configuration since main() parses flags once) with the static backend and two routes to one slow TLS
+// upstream: served by the skip-verify transport and by a per-route host-override transport, which
+// route.addTarget builds while the FIRST routing table is built, i.e. before the listeners start.
+// Observed: the limit fields of the per-route transport in the installed table (a CRoute case) and
+// status, time and upstream hits of real requests through the real listener (CServe cases).
+func realMain(run *vh.Run, r *rand.Rand) {
+	repo := os.Getenv("VERIF_REPO")
+	if repo == "" {
+		repo = "/repo"
+	}
+	dir, err := os.MkdirTemp("", "c19main")
+	if err != nil {
+		panic(err)
+	}
+	defer os.RemoveAll(dir)
+	bin := filepath.Join(dir, "fabio.test")
+	cmd := exec.Command("go", "test", "-tags", "verif", "-c", "-o", bin, ".")
+	cmd.Dir = repo
+	if out, err := cmd.CombinedOutput(); err != nil {
+		run.Violation(run.NextID(), "cannot build the real-main driver (go test -tags verif -c in "+repo+"): "+err.Error(), string(out))
+		return
+	}
+	type in struct {
+		RHT, Idle, Dial, KeepAlive int64
+		MaxConn                    int
+		Delays                     []int64
+	}
+	n := run.Scale(2, 8)
+	for i := 0; i < n; i++ {
+		rht := int64(200+100*r.Intn(4)) * int64(time.Millisecond)
+		if i == 1 {
+			rht = int64(1500 * time.Millisecond)
+		}
+		l := limits{rht: rht, idle: int64(1+r.Intn(90)) * int64(time.Second), maxconn: int64(1 + r.Intn(500)),
+			dial: int64(2+r.Intn(5)) * int64(time.Second), keepalive: int64(1+r.Intn(60)) * int64(time.Second)}
+		rhtMs := rht / int64(time.Millisecond)
+		job := in{l.rht, l.idle, l.dial, l.keepalive, int(l.maxconn), []int64{0, rhtMs / 3, rhtMs*2 + 700}}
+		b, _ := json.Marshal(job)
+		inF, outF := filepath.Join(dir, fmt.Sprintf("in%d.json", i)), filepath.Join(dir, fmt.Sprintf("out%d.json", i))
+		os.WriteFile(inF, b, 0o644)
+		c := exec.Command(bin, "-test.run", "TestVerifC19$", "-test.count=1", "-test.timeout=3m")
+		c.Dir = repo
+		c.Env = append(os.Environ(), "VERIF_C19_IN="+inF, "VERIF_C19_OUT="+outF)
+		outb, err := c.CombinedOutput()
+		var res struct {
+			Targets []struct {
+				Path         string
+				HasTransport bool
+				RHT, Idle    int64
+				MaxIdle      int
+				ServerName   string
+				Skip         bool
+			}
+			Reqs []struct {
+				Path    string
+				DelayMs int64
+				Status  int
+				Elapsed int64
+				Hits    int64
+			}
+		}
+		ob, rerr := os.ReadFile(outF)
+		if err != nil || rerr != nil || json.Unmarshal(ob, &res) != nil {
+			tail := string(outb)
+			if len(tail) > 1500 {
+				tail = tail[len(tail)-1500:]
+			}
+			run.Violation(run.NextID(), fmt.Sprintf("fabio's real main() did not come up or the driver failed with limits %+v", job), tail)
+			continue
+		}
+		for _, tg := range res.Targets {
+			impl := vh.None
+			host := ""
+			if tg.HasTransport {
+				host = tg.ServerName
+				// dial timeout and keep-alive sit in a closure: not observable from another process, taken as configured
+				f := trFields{rht: tg.RHT, idle: tg.Idle, maxidle: int64(tg.MaxIdle), dial: l.dial, keepalive: l.keepalive, hasTLS: true, serverName: tg.ServerName, skip: tg.Skip}
+				impl = vh.Some(f.coq())
+			}
+			if tg.Path == "/override" {
+				host = "upstream.example"
+			}
+			run.Add("real-main-route-transport", vh.App("CRoute", l.coq(), vh.HxS(host), vh.Bool(true), vh.Bool(false), vh.Bool(true), impl),
+				map[string]interface{}{"route": tg.Path, "limits": job, "has_transport": tg.HasTransport, "rht": time.Duration(tg.RHT).String(), "idle": time.Duration(tg.Idle).String(), "maxidle": tg.MaxIdle})
+		}
+		for _, q := range res.Reqs {
+			if abs(q.DelayMs-rhtMs) < 60 {
+				continue
+			}
+			run.Add("real-main-slow-upstream", vh.App("CServe", vh.Z(rhtMs), vh.Z(q.DelayMs), vh.Z(200), vh.Z(int64(q.Status)), vh.Z(q.Elapsed), vh.Z(3000), vh.Z(q.Hits)),
+				map[string]interface{}{"route": q.Path, "limit_ms": rhtMs, "delay_ms": q.DelayMs, "client_status": q.Status, "elapsed_ms": q.Elapsed, "upstream_hits": q.Hits})
+		}
+	}
 }
 
 func abs(x int64) int64 {
